@@ -81,6 +81,27 @@ def schur_cases(draw, tier):
             "tol": draw(st.sampled_from([1e-12, 1e-10, 1e-8, 1e-6]))}
 
 
+@st.composite
+def larger_schur_cases(draw, tier):
+    """Orders beyond the default chase window (12) and past the blocking size 32, with small iteration budgets (the
+    similarity must hold after ANY number of sweeps)."""
+    n = draw(st.sampled_from([13, 14, 17, 20, 33] if tier == "quick" else [13, 14, 17, 20, 24, 33, 40, 65]))
+    kind = draw(st.sampled_from(["generic", "generic", "hermitian", "hessenberg", "banded", "int"]))
+    A, _ = draw(gen.long_qarray(n, n, "int" if kind == "int" else "generic"))
+    if kind != "int":
+        A = A / 4.0
+    idx = np.arange(n)
+    if kind == "hermitian":
+        A = gen.make_hermitian(A)
+    elif kind == "hessenberg":
+        A = A * ((idx[:, None] - idx[None, :]) <= 1)[..., None]
+    elif kind == "banded":
+        A = A * (np.abs(idx[:, None] - idx[None, :]) <= draw(st.sampled_from([1, 2, 5])))[..., None]
+    return {"A": np.ascontiguousarray(A), "kind": kind, "variant": draw(st.integers(0, len(VARIANTS) - 1)),
+            "max_iter": draw(st.sampled_from([0, 1, 2, 5, 12] if n >= 33 else [0, 1, 2, 5, 20, 60])),
+            "tol": draw(st.sampled_from([1e-12, 1e-10, 1e-8]))}
+
+
 def variant_tag(fn, kw):
     v = kw.get("variant", kw.get("shift", kw.get("shift_mode", "")))
     t = f"{fn}[{v}]"
@@ -177,7 +198,9 @@ PROPERTY = Property(
     title="Every Schur variant preserves the unitary similarity A = Q T Q^H",
     rule="n >= 3 and the run performed >= 1 sweep",
     clauses=[Clause("schur", check_schur, strategy=schur_cases, budget={"quick": 1600, "thorough": 20000}, min_per_shard=8,
-                    shrink=False)],
+                    shrink=False),
+             Clause("schur_larger_orders", check_schur, strategy=larger_schur_cases, budget={"quick": 64, "thorough": 640},
+                    min_per_shard=4, shrink=False)],
     assumptions=[
         "similarity tolerance = 10 n (1+sweeps) tau max(1,||A||) + 1e3 n u (n+sweeps) ||A||, tau the variant's effective "
         "deflation threshold (tol, or aed_factor*tol)",
